@@ -164,6 +164,11 @@ func checkMain(args []string) int {
 	}
 	genS := time.Since(t0).Seconds() - loadS
 	os.Setenv("VERIF_SOLVER_CACHE", "")
+	{
+		var knownEarly []KnownFinding
+		loadJSON(filepath.Join(verifDir, "known_findings.json"), &knownEarly)
+		NoRetry = func(ob *Ob) bool { return matchKnown(knownEarly, prop, groupName(ob)) != nil }
+	}
 	SolveAll(all, outDir, timeout)
 	solveS := time.Since(t0).Seconds() - loadS - genS
 
